@@ -130,6 +130,7 @@ def execute(case):
         xc[k] = xc[k] * (10.0 ** case["scale10"])
         exact = False
         ck.label("scaled")
+    also_other = lambda cores: cores
     if case.get("unbalanced", 0) and d >= 2:
         ub = case["unbalanced"] if dt in ("f64", "c128") else 15
         k = (xs["seed"] // 11) % d
@@ -137,6 +138,15 @@ def execute(case):
         xc[(k + 1) % d] = xc[(k + 1) % d] * (10.0 ** (-ub))
         exact = False
         ck.label("unbalanced_cores")
+        if xs["seed"] % 2 == 0:
+            # the second operand of dot / bilinear_form badly balanced at the same position: the partial products of the chain
+            # reach 10^(2u) while the result is an ordinary number
+            def also_other(cores):
+                if len(cores) == d:
+                    cores[k] = cores[k] * (10.0 ** ub)
+                    cores[(k + 1) % d] = cores[(k + 1) % d] * (10.0 ** (-ub))
+                    ck.label("unbalanced_both_operands")
+                return cores
     ck.label("op:" + op, "dt:" + dt, "order:%d" % d, "payload:" + xs["mode"])
     if ttm:
         ck.label("operator")
@@ -216,7 +226,7 @@ def execute(case):
         return ck.verdict()
 
     if op == "dot":
-        yc = core.make_cores(case["y"])
+        yc = also_other(core.make_cores(case["y"]))
         y = T.TT(core.clone_cores(yc))
         got = lib(lambda: T.dot(x, y))
         yd, ya = dense(yc), dense_abs(yc)
@@ -277,7 +287,7 @@ def execute(case):
 
     if op == "bilinear":
         Ac = core.make_cores(case["A"])
-        lc = core.make_cores(case["xl"])
+        lc = also_other(core.make_cores(case["xl"]))
         A = T.TT(core.clone_cores(Ac))
         xl = T.TT(core.clone_cores(lc))
         got = lib(lambda: T.bilinear_form(xl, A, x))
